@@ -216,6 +216,22 @@ CHECKS = {
         assumptions=["the grammar is the one of DESIGN.md §2; hashable-key restrictions of Rust containers are respected (no "
                      "set<set<..>>, no map<map<..>,..>)", "type-checking is `cargo check` (no codegen)"],
     ),
+    "C17": dict(
+        engine="py:c17", level="model_checking", quick_cap=600, thorough_cap=7200,
+        rule=("Documents: a 5-file Thrift document with nested/sibling namespaces, the case-collision document, the service "
+              "document, a protobuf file with 4+ nested messages [thorough: 5 more incl. a two-file protobuf import] x output modes "
+              "{single file, split files, workspace}. Schedules: (a) with the cfg(pilota_verif) hook the per-module code generation "
+              "tasks run sequentially in a dictated order: ALL permutations for <=4 [5] tasks (adjacent transpositions + reversal "
+              "beyond); (b) without the hook: per-process hash seeds 0..15 [0..95] x rayon pool sizes {1,16} [{1,2,3,4,8,16}], the "
+              "seeds being owned through an LD_PRELOAD getrandom/syscall shim with ASLR off. Oracle: the set of emitted files and "
+              "every file's SHA-256 equal those of the reference run (seed 0, one thread); the hooked build's output equals the "
+              "unhooked one. states = distinct schedules (task orders, seeds); transitions = builder executions; "
+              "traces_validated_against_impl = executions (every schedule is run on the real generator). The evidence also counts "
+              "how many distinct natural iteration orders of the module map the seed set realised."),
+        assumptions=["rayon work stealing BELOW task granularity is not controlled (tasks are the unit of scheduling)",
+                     "seed control is validated in every run: the natural iteration order recorded by the hook must change with "
+                     "the seed (counters.keys_with_more_than_one_natural_order > 0), and replays run the same seed twice"],
+    ),
 }
 
 
@@ -257,6 +273,7 @@ def write_manifest():
     kinds = {
         "vcore": "shared library: dynamic Thrift values, bounded enumerators, reference codecs written from the specs, deviation-bounded explorer, counting allocator, shard/evidence plumbing",
         "gen:tsem": "generated-code engine: lib/corpus.py writes the semantic Thrift corpus + its schema, engines/vgen runs the real pilota-build per (document, configuration) in a child process, lib/gen.py scans the output for generated Message impls and emits a harness crate that include!s them; engines/vgenrun/src is the harness (schema-directed value enumeration, reference codec comparison)",
+        "py:c17": "lib/c17.py: runs the real generator (plain and cfg(pilota_verif)-hooked builds of engines/vgen) under an LD_PRELOAD getrandom shim (engines/shim/verifrand.c), setarch -R and RAYON_NUM_THREADS; compares SHA-256 of all emitted files",
         "py:c14": "lib/c14.py: runs engines/vgen (the real pilota-build) in a child process per (document, configuration) and type-checks all outputs as modules of one crate",
         "vparse": "Thrift IDL parser engine: own descriptor AST, token printer with a choice point at every free layout decision, mutation/fault enumerators over rendered documents; drives pilota_thrift_parser::File::parse",
         "vrt": "runtime-level engine: value interpreter that drives pilota's real protocol objects exhaustively over the enumerated spaces (sync and scripted-async readers)",
@@ -282,7 +299,7 @@ def write_manifest():
     return 0
 
 
-HOOK_COMMITS = []
+HOOK_COMMITS = ["0f6c9c8"]
 
 
 def setup():
@@ -292,8 +309,10 @@ def setup():
     r = gen.build_thrift_sem("quick")
     print("tsem harness:", json.dumps(r["info"]))
     # warm the C14 type-check crate (cargo check is a no-op afterwards unless /repo changes)
-    import c14
+    import c14, c17
     c14.run("quick", 0)
+    c17.build_shim()
+    c17.build_hooked()
     print("setup ok")
     return 0
 
